@@ -1,6 +1,6 @@
 #!/bin/sh
 # usage: confirm_seed.sh <seeded dir>  -- confirms: demo passes on HEAD, fails with the patch, full test suite passes with the patch.
-d="$1"; name=$(basename "$d")
+d=$(cd "$1" && pwd); name=$(basename "$d")
 w=$(mktemp -d /tmp/confirm.XXXXXX) || exit 2
 git -C /repo archive HEAD | tar -x -C "$w" || exit 2
 r_clean="n/a"; r_patched="n/a"
